@@ -1,3 +1,4 @@
+import Ebu.Spec.Flow
 import Ebu.Spec.Bus
 import Ebu.Proofs.BusFrame
 import Ebu.Proofs.BusPersist
@@ -52,5 +53,10 @@ theorem offsets_keep_increasing {R : Type} (I : RegImpl R) (cfg : Config) (fuel 
 theorem publish_does_not_panic {R : Type} (I : RegImpl R) (cfg : Config) (fuel : Nat) (faults : List Bool)
     (prog : List Action) : (run I cfg fuel faults prog).c.panicking = none :=
   Ebu.Bus.no_panic_escapes I cfg fuel faults prog
+
+/-! ### obligations on the control flow of the CURRENT source (`Ebu/Generated/Flow.lean`, regenerated from /repo on every run) -/
+
+/-- OBLIGATION: `persistEvent` reports a marshal failure and returns before any append; makes ONE append attempt in no loop (no retry); writes `lastOffset` only under `saveErr == nil`; reports an append failure once, after the lock is released; cancels the timeout context by `defer` -/
+theorem flow_persist_shape : Ebu.Flow.persistShape = true := by decide +kernel
 
 end Ebu.Props.C13
